@@ -25,6 +25,7 @@ type cfgPath struct {
 	blocks []*ssa.BasicBlock
 	conds  []pathCond
 	end    *ssa.BasicBlock // last block (ends in Return/Panic or is a stop block)
+	stopped bool           // set by the caller when the stop block is the loop header the path started below: its phis stay symbolic
 }
 
 // enumPaths enumerates paths from start until a block without successors or a
@@ -76,6 +77,9 @@ func (p *cfgPath) resolve(v ssa.Value) ssa.Value {
 	for depth := 0; depth < 16; depth++ {
 		phi, ok := v.(*ssa.Phi)
 		if !ok {
+			return v
+		}
+		if p.stopped && phi.Block() == p.end {
 			return v
 		}
 		idx := -1
